@@ -1,4 +1,4 @@
-(** C18 — proofs about the PageRank model (Algo/PageRankQ.v). *)
+(** C18 — proofs about the PageRank model (Algo/PageRankM.v). *)
 From WG Require Import Algo.PageRankQ Algo.PageRankStatements.
 From Coq Require Import Lia Lqa Setoid Morphisms Permutation.
 Local Open Scope Q_scope.
@@ -123,11 +123,11 @@ Section Facts.
   Notation outdeg := (outdeg n pred).
 
   Lemma inv_nonneg j : 0 <= inv j.
-  Proof. unfold PageRankQ.inv. destruct outdeg; [apply Qle_refl|]. unfold Qle. cbn. lia. Qed.
+  Proof. unfold PageRankM.inv. destruct outdeg; [apply Qle_refl|]. unfold Qle. cbn. lia. Qed.
   Lemma inv_le1 j : inv j <= 1.
-  Proof. unfold PageRankQ.inv. destruct outdeg; [lra|]. unfold Qle. cbn. lia. Qed.
+  Proof. unfold PageRankM.inv. destruct outdeg; [lra|]. unfold Qle. cbn. lia. Qed.
   Lemma dang_inv j : dang j = true -> inv j = 0.
-  Proof. unfold PageRankQ.dang, PageRankQ.inv. destruct outdeg; [reflexivity|discriminate]. Qed.
+  Proof. unfold PageRankM.dang, PageRankM.inv. destruct outdeg; [reflexivity|discriminate]. Qed.
 
   (** row sums of P *)
   Lemma Pmat_row_upto j k : (k <= n)%nat ->
@@ -144,7 +144,7 @@ Section Facts.
     rewrite (sumn_ext n _ (fun i => (if memb j (pred i) then 1 else 0) * inv j)).
     2:{ intros i _. destruct (memb j (pred i)); ring. }
     rewrite sumn_scale_r, Pmat_row_upto by lia.
-    unfold PageRankQ.inv, PageRankQ.dang, PageRankQ.outdeg.
+    unfold PageRankM.inv, PageRankM.dang, PageRankM.outdeg.
     destruct (outdeg_upto pred n j) as [|d]; [ring|apply inject_nat_S].
   Qed.
   Lemma Pmat_nonneg j i : 0 <= Pmat n pred j i.
@@ -164,14 +164,14 @@ Section Facts.
 
   Lemma uvec_nonneg i : (i < n)%nat -> 0 <= uvec i.
   Proof.
-    intros Hi. unfold PageRankQ.uvec. destruct md.
+    intros Hi. unfold PageRankM.uvec. destruct md.
     - apply Hv; exact Hi.
     - destruct n; [lia|]. unfold Qle; cbn; lia.
     - apply Qle_refl.
   Qed.
   Lemma uvec_le1 i : (i < n)%nat -> uvec i <= 1.
   Proof.
-    intros Hi. unfold PageRankQ.uvec. destruct md.
+    intros Hi. unfold PageRankM.uvec. destruct md.
     - apply v_le1; exact Hi.
     - destruct n; [lia|]. unfold Qle; cbn; lia.
     - lra.
@@ -187,7 +187,7 @@ Section Facts.
   Qed.
   Lemma uvec_sum : sumn n uvec == match md with PseudoRank => 0 | _ => 1 end.
   Proof.
-    unfold PageRankQ.uvec. destruct md.
+    unfold PageRankM.uvec. destruct md.
     - apply Hv.
     - destruct n as [|k] eqn:E.
       + destruct Hv as [_ H1]. cbn in H1. lra.
@@ -196,13 +196,13 @@ Section Facts.
   Qed.
   Lemma Gmat_nonneg j i : (i < n)%nat -> 0 <= Gmat j i.
   Proof.
-    intros Hi. unfold PageRankQ.Gmat. pose proof (Pmat_nonneg j i). pose proof (uvec_nonneg i Hi).
+    intros Hi. unfold PageRankM.Gmat. pose proof (Pmat_nonneg j i). pose proof (uvec_nonneg i Hi).
     destruct (dang j); lra.
   Qed.
   Lemma Gmat_row j : sumn n (fun i => Gmat j i) ==
     if dang j then match md with PseudoRank => 0 | _ => 1 end else 1.
   Proof.
-    unfold PageRankQ.Gmat. rewrite sumn_plus, Pmat_row.
+    unfold PageRankM.Gmat. rewrite sumn_plus, Pmat_row.
     destruct (dang j).
     - rewrite uvec_sum. ring.
     - rewrite sumn_zero. ring.
@@ -236,7 +236,7 @@ Section Thms.
   Qed.
   Lemma solves_resid x : solves x <-> (forall i, (i < n)%nat -> resid x i == 0).
   Proof.
-    unfold PageRankQ.solves, PageRankQ.resid. split; intros H i Hi; specialize (H i Hi).
+    unfold PageRankM.solves, PageRankM.resid. split; intros H i Hi; specialize (H i Hi).
     - rewrite lhs_split in H by exact Hi. lra.
     - rewrite lhs_split by exact Hi. lra.
   Qed.
@@ -266,7 +266,7 @@ Section Thms.
     set (e := fun i => x i - y i).
     assert (He : forall i, (i < n)%nat ->
               e i == alpha * sumn n (fun j => e j * Gmat j i) - resid x i).
-    { intros i Hi. specialize (Hy i Hi). unfold PageRankQ.resid in *. unfold e.
+    { intros i Hi. specialize (Hy i Hi). unfold PageRankM.resid in *. unfold e.
       rewrite (sumn_ext n (fun j => (x j - y j) * Gmat j i)
                  (fun j => x j * Gmat j i - y j * Gmat j i)) by (intros; ring).
       rewrite sumn_minus. lra. }
@@ -327,7 +327,7 @@ Section Thms.
       (* S = (1-alpha) sum w v + alpha sum_j x_j r_j *)
       rewrite (sumn_ext n (fun i => w i * x i)
         (fun i => (1 - alpha) * (w i * v i) + alpha * sumn n (fun j => x j * (w i * Gmat j i)))).
-      2:{ intros i Hi. specialize (Hx i Hi). unfold PageRankQ.resid in Hx.
+      2:{ intros i Hi. specialize (Hx i Hi). unfold PageRankM.resid in Hx.
           rewrite (sumn_ext n (fun j => x j * (w i * Gmat j i)) (fun j => w i * (x j * Gmat j i)))
             by (intros; ring).
           rewrite sumn_scale. set (s := sumn n (fun j => x j * Gmat j i)) in *.
@@ -356,7 +356,7 @@ Section Thms.
   Proof.
     intros Hx. pose proof (proj1 (solves_resid _) Hx) as Hx'; clear Hx; rename Hx' into Hx.
     rewrite (sumn_ext n x (fun i => (1 - alpha) * v i + alpha * sumn n (fun j => x j * Gmat j i))).
-    2:{ intros i Hi. specialize (Hx i Hi). unfold PageRankQ.resid in Hx. lra. }
+    2:{ intros i Hi. specialize (Hx i Hi). unfold PageRankM.resid in Hx. lra. }
     rewrite sumn_plus, !sumn_scale, sumn_swap.
     destruct Hv as [_ Hv1]. rewrite Hv1.
     rewrite (sumn_ext n (fun j => sumn n (fun i => x j * Gmat j i))
@@ -620,7 +620,7 @@ Section Async.
 
   Lemma slf_G i : (i < n)%nat -> slf i == 1 - alpha * Gmat i i.
   Proof.
-    intros Hi. unfold self_loop_factor, PageRankQ.Gmat, Pmat, has_loop.
+    intros Hi. unfold self_loop_factor, PageRankM.Gmat, Pmat, has_loop.
     destruct (dang n pred i) eqn:Ed.
     - rewrite (dang_inv n pred i Ed).
       destruct md; cbn [uvec]; destruct (memb i (pred i)); ring.
@@ -718,7 +718,7 @@ Section Async.
       { unfold w. destruct (dang n pred j).
         - apply abs_tri3.
         - pose proof (Qabs_nonneg (x' j - x j)). pose proof (Qabs_nonneg (x' j - y j)). change (Qabs 0) with 0. lra. }
-      unfold PageRankQ.Gmat.
+      unfold PageRankM.Gmat.
       assert (H3 : Qabs (if dang n pred j then x j - y j else 0) * uvec n v md i <=
                    w j * (if dang n pred j then uvec n v md i else 0)).
       { destruct (dang n pred j); [nra|]. change (Qabs 0) with 0. lra. }
